@@ -777,8 +777,8 @@ class Interp:
                     return [], [Outcome('return', st, vals)]
                 if op == 'Panic':
                     s.violated(st, s.lbl(fr, ins))
-                if op == 'Call':
-                    r = s.do_call(st, fr, ins)
+                if op == 'Call' or op == 'Select':
+                    r = s.do_call(st, fr, ins) if op == 'Call' else s.do_select(st, fr, ins)
                     if not r:
                         raise PathEnd()
                     if len(r) == 1:
@@ -1531,6 +1531,63 @@ class Interp:
         if fn is None:
             s.violated(st, s.lbl(fr, ins, 'nil-func-call'))
         raise Unsupported('call of ' + repr(fn))
+
+    def do_select(s, st, fr, ins):
+        """select in the sequential channel model: every ready case is a possible outcome (fork); with a
+        default clause and nothing ready the default is taken; a blocking select with nothing ready would
+        block (violation)"""
+        X = ins['x']
+        A = ins['args']
+        states = X['states']
+        ready = []
+        for i, sd in enumerate(states):
+            ch = s.operand(fr, A[2 * i], st)
+            if ch is None:
+                continue
+            _, cp, items, closed = st.heap[ch.obj]
+            if sd['dir'] == 'recv':
+                if items or closed:
+                    ready.append(i)
+            else:
+                if closed:
+                    s.violated(st, s.lbl(fr, ins, 'send-closed'))
+                if len(items) < cp:
+                    ready.append(i)
+        nrecv = sum(1 for sd in states if sd['dir'] == 'recv')
+
+        def result(stt, idx):
+            vals = []
+            ok = False
+            for i, sd in enumerate(states):
+                if sd['dir'] != 'recv':
+                    continue
+                if i == idx:
+                    ch = s.operand(fr, A[2 * i], stt)
+                    _, cp, items, closed = stt.heap[ch.obj]
+                    if items:
+                        vals.append(items[0])
+                        ok = True
+                        stt.heap[ch.obj] = ('CH', cp, items[1:], closed)
+                    else:
+                        vals.append(zero(sd['elem']))
+                else:
+                    vals.append(zero(sd['elem']))
+            if idx >= 0 and states[idx]['dir'] == 'send':
+                ch = s.operand(fr, A[2 * idx], stt)
+                v = s.operand(fr, A[2 * idx + 1], stt)
+                _, cp, items, closed = stt.heap[ch.obj]
+                stt.heap[ch.obj] = ('CH', cp, items + (v,), closed)
+            return (mask(idx, 64), ok) + tuple(vals)
+        if not ready:
+            if X['blocking']:
+                s.violated(st, s.lbl(fr, ins, 'would-block-select'))
+            return [(st, result(st, -1))]
+        out = []
+        for k, idx in enumerate(ready):
+            stt = st if k == len(ready) - 1 else st.fork()
+            out.append((stt, result(stt, idx)))
+        s.ctx.states += len(out) - 1
+        return out
 
     def do_call(s, st, fr, ins):
         callee, args = s.callee_of(st, fr, ins)
